@@ -209,11 +209,12 @@ class _CommonFile:
             # NOTE: if multiple entries for a key, we use the first one,
             #       which seems to match htpasswd source
             if key in records:
+                # NOTE: only the first entry is live (as for apache itself); later duplicates are
+                #       dropped, otherwise deleting the user would bring the stale entry back to life.
                 logging.warning(
                     "username occurs multiple times in source file: %r",
                     key,
                 )
-                skipped += line
                 continue
 
             # flush buffer of skipped whitespace lines
